@@ -105,6 +105,15 @@ def dedupAdj {α} [DecidableEq α] : List α → List α
   | [x] => [x]
   | x :: y :: rest => if x = y then dedupAdj (y :: rest) else x :: dedupAdj (y :: rest)
 
+def strLe (a b : Str) : Bool := cmpStr a b != .gt
+
+def lenThenStrLe (a b : Str) : Bool :=
+  utf8LenStr a < utf8LenStr b || (utf8LenStr a == utf8LenStr b && strLe a b)
+
+/-- `RegExp::sort`: sort, dedup, sort by (byte length, bytes) -/
+def sortCases (ws : List Str) : List Str :=
+  sortBy lenThenStrLe (dedupAdj (sortBy strLe ws))
+
 def joinWith (sep : Str) : List Str → Str
   | [] => []
   | [x] => x
